@@ -170,7 +170,41 @@ def r2_convex(ctx):
                     if isinstance(b, ast.Assign) and U(b.targets[0]) == "self.sufficient_statistics" and isinstance(b.value, ast.DictComp):
                         comp, branch = b, body
     if comp is None:
-        ctx.violation("C05.R2", f, f.node, "no averaged update `self.sufficient_statistics = {k: ... for k, v in self.sufficient_statistics.items()}`", construct="def _maximization_step")
+        # the averaged update may live in a helper method the step hands its statistics and step size to: read it with the arguments bound
+        import copy as _copy
+        for st in statements(fnode):
+            if not isinstance(st, ast.If):
+                continue
+            for body in (st.body, st.orelse):
+                for b in body:
+                    c = b.value if isinstance(b, ast.Expr) else None
+                    if not (isinstance(c, ast.Call) and isinstance(c.func, ast.Attribute) and U(c.func.value) == "self"):
+                        continue
+                    hm = ctx.ix.method((f.mod, f.cls[1]) if isinstance(f.cls, tuple) else (f.mod, f.qual.split(".")[0]), c.func.attr)
+                    if hm is None:
+                        continue
+                    hs = [x for x in statements(hm.node) if isinstance(x, ast.Assign) and U(x.targets[0]) == "self.sufficient_statistics" and isinstance(x.value, ast.DictComp)]
+                    if len(hs) != 1:
+                        continue
+                    params = [a.arg for a in hm.node.args.args][1:]
+                    bound = dict(zip(params, c.args))
+                    bound.update({k.arg: k.value for k in c.keywords if k.arg})
+
+                    class _B(ast.NodeTransformer):
+                        def visit_Name(self, n):
+                            return _copy.deepcopy(bound[n.id]) if n.id in bound and isinstance(n.ctx, ast.Load) else n
+                    new = _B().visit(_copy.deepcopy(hs[0]))
+                    ast.copy_location(new, b)
+                    ast.fix_missing_locations(new)
+                    body[body.index(b)] = new
+                    comp, branch = new, body
+                    ctx.analysed(hm)
+    if comp is None:
+        calls_ = [U(b.value.func) for st in statements(fnode) if isinstance(st, ast.If) for body in (st.body, st.orelse) for b in body if isinstance(b, ast.Expr) and isinstance(b.value, ast.Call)]
+        if calls_:
+            ctx.unknown("C05.R2", f, f.node, f"the averaged update is not in _maximization_step and was not found in the helper(s) it calls ({calls_[:3]})", construct="def _maximization_step")
+        else:
+            ctx.violation("C05.R2", f, f.node, "no averaged update `self.sufficient_statistics = {k: ... for k, v in self.sufficient_statistics.items()}`", construct="def _maximization_step")
         return
     dc = comp.value
     gen = dc.generators[0]
@@ -253,6 +287,17 @@ def r2_convex(ctx):
     except NFUnsupported as e:
         ctx.unknown("C05.R2", f, comp, f"averaging expression outside the supported subset: {e}")
         return
+    # the combination is written so that an infinite statistic stays infinite: the new and the previous statistic are never subtracted from
+    # one another (`v + e * (s - v)` is the same number for finite values, and inf - inf = NaN otherwise)
+    for v_ in val_exprs:
+        for x in ast.walk(v_):
+            if isinstance(x, ast.BinOp) and isinstance(x.op, ast.Sub):
+                sides = [{U(n_) for n_ in ast.walk(sd) if isinstance(n_, (ast.Name, ast.Subscript))} for sd in (x.left, x.right)]
+                has_new = [any(t_ == f"{fresh}[{kvar}]" for t_ in sd) for sd in sides]
+                has_prev = [vvar in sd for sd in sides]
+                if (has_new[0] and has_prev[1]) or (has_new[1] and has_prev[0]):
+                    ctx.violation("C05.R2", f, comp, f"`{U(x)[:60]}` subtracts the previous statistic from the new one (incremental form): equal to the convex combination for finite values, but an "
+                                  "infinite statistic (inf - inf) becomes NaN instead of staying infinite as the schedule gives", construct="inf-preserving form")
     e_ref = (kk - nn) ** (-pp)
     ref = (1 - e_ref) * Sprev + e_ref * snew
     for extra_ in gots[1:]:
